@@ -55,6 +55,7 @@ type UpAction struct {
 	Reset       bool   // with CloseBefore/CloseAfter on plain TCP: close with SO_LINGER 0 (RST)
 	RawStream   []byte // stream transports: write these octets verbatim instead of a framed Reply
 	HTTPStatus  int    // DoH: status to send (0 = 200)
+	HTTPStall   bool   // DoH: send the headers (full Content-Length) and half of the body, then stall until the client gives up
 }
 
 type Handler func(q *UpQuery) UpAction
@@ -80,6 +81,7 @@ type FakeUpstream struct {
 
 	open        atomic.Int64 // stream / QUIC connections currently open (as far as the server can tell)
 	AcceptDelay atomic.Int64 // nanoseconds to wait before serving an accepted stream connection (delayed handshake)
+	StopReading atomic.Bool  // stream kinds: while set, no further frame is read from any connection (the peer's writes back up)
 	liveMu      sync.Mutex
 	live        map[int64]io.Closer // open accepted connections by id
 	liveTCP     map[int64]*net.TCPConn
@@ -389,6 +391,12 @@ func (u *FakeUpstream) serveStream(l net.Listener, transport string) {
 				c.Close()
 			}
 			for {
+				for u.StopReading.Load() {
+					time.Sleep(2 * time.Millisecond)
+					if u.closed.Load() {
+						return
+					}
+				}
 				var lb [2]byte
 				if _, err := io.ReadFull(c, lb[:]); err != nil {
 					return
@@ -464,6 +472,19 @@ func (u *FakeUpstream) serveHTTP(w http.ResponseWriter, r *http.Request, transpo
 		return
 	}
 	w.Header().Set("Content-Type", "application/dns-message")
+	if a.HTTPStall {
+		w.Header().Set("Content-Length", fmt.Sprint(len(a.Reply)))
+		w.WriteHeader(200)
+		w.Write(a.Reply[:len(a.Reply)/2])
+		if f, ok := w.(http.Flusher); ok {
+			f.Flush()
+		}
+		select {
+		case <-r.Context().Done():
+		case <-time.After(8 * time.Second):
+		}
+		return
+	}
 	if a.RawStream != nil {
 		w.Write(a.RawStream)
 	} else {
